@@ -3,6 +3,7 @@ package main
 import (
 	"fmt"
 	"go/constant"
+	"go/token"
 	"go/types"
 	"strconv"
 	"strings"
@@ -262,7 +263,7 @@ func smtReal(cv constant.Value) string {
 	f := constant.ToFloat(cv)
 	neg := constant.Sign(f) < 0
 	if neg {
-		f = constant.UnaryOp(45 /* token.SUB */, f, 0)
+		f = constant.UnaryOp(token.SUB, f, 0)
 	}
 	num, den := constant.Num(f), constant.Denom(f)
 	s := ""
@@ -495,9 +496,14 @@ func (e *Env) trBinary(x *Binary) Val {
 	_, bn := x.Y.(*NilLit)
 	if an && !bn {
 		a, b, ta, tb, an, bn = b, a, tb, ta, false, true
+		av, bv = bv, av
 	}
 	if bn && (x.Op == "==" || x.Op == "!=") {
 		var s string
+		if av.A != nil && (av.A.Kind != aHeap || len(av.A.Path) > 0 || av.A.Fresh) {
+			// address of a local, of a field or of a fresh object: never nil
+			return Val{T: tBool, S: fmt.Sprint(x.Op == "!=")}
+		}
 		switch under(ta.G).(type) {
 		case *types.Slice:
 			s = "(= (s_arr " + a + ") 0)"
